@@ -64,6 +64,8 @@ func loadPropMeta(id string) PropMeta {
 	return all[id]
 }
 
+var candSiteCount map[string]int
+
 type candidate struct {
 	ob      *Oblig
 	vec     Vector
@@ -252,6 +254,20 @@ func cmdCheck(args []string) int {
 		}
 	}
 
+	// keep at most 3 candidates per (harness, assertion): the rest are counted, not replayed
+	{
+		perSite := map[string]int{}
+		var kept []*candidate
+		for _, c := range cands {
+			k := c.ob.Harness + "/" + c.ob.Label + "/" + c.kind
+			perSite[k]++
+			if perSite[k] <= 3 {
+				kept = append(kept, c)
+			}
+		}
+		candSiteCount = perSite
+		cands = kept
+	}
 	// native runs
 	var vecs []Vector
 	for _, c := range cands {
@@ -292,6 +308,7 @@ func cmdCheck(args []string) int {
 	}
 
 	violations := 0
+	reportedSite := map[string]bool{}
 	knownHits := map[string]bool{}
 	var violationLines []string
 	for _, c := range cands {
@@ -304,6 +321,11 @@ func cmdCheck(args []string) int {
 				nDischarged++ // accounted for by a listed finding
 				continue
 			}
+			site := c.ob.Harness + "/" + c.ob.Label + "/" + c.kind
+			if reportedSite[site] {
+				continue
+			}
+			reportedSite[site] = true
 			violations++
 			dir := filepath.Join(verifDir, "replays", id, fmt.Sprintf("%d", violations))
 			os.MkdirAll(dir, 0755)
@@ -315,7 +337,7 @@ func cmdCheck(args []string) int {
 			})
 			line := fmt.Sprintf("VIOLATION property=%s replay=%s", id, filepath.Join(dir, "vector.json"))
 			violationLines = append(violationLines, line)
-			fmt.Printf("  violated: harness=%s assertion=%q inputs=%v choices=%v\n", c.ob.Harness, c.ob.Label, readableModel(c.ob.Model), c.ob.Choices)
+			fmt.Printf("  violated: harness=%s assertion=%q inputs=%v choices=%v (%d path(s) violate this assertion)\n", c.ob.Harness, c.ob.Label, readableModel(c.ob.Model), c.ob.Choices, candSiteCount[site])
 			samples = append(samples, map[string]interface{}{"violation": c.ob.Label, "harness": c.ob.Harness, "inputs": readableModel(c.ob.Model), "choices": c.ob.Choices})
 		} else {
 			why := "counterexample did not reproduce against the compiled code"
